@@ -26,6 +26,21 @@ theorem eqIgnoreAsciiCase_length {a b : Bytes} (h : eqIgnoreAsciiCase a b = true
   have := congrArg List.length ((eqIgnoreAsciiCase_iff_map a b).1 h)
   simpa using this
 
+theorem asciiLower_idem (b : Nat) : asciiLower (asciiLower b) = asciiLower b := by
+  simp only [asciiLower, isUpper]
+  by_cases h : (65 ≤ b ∧ b ≤ 90)
+  · have h2 : ¬ (65 ≤ b + 32 ∧ b + 32 ≤ 90) := by omega
+    simp [h]; omega
+  · simp [h]
+
+theorem asciiLower_upper (b : Nat) : asciiLower (asciiUpper b) = asciiLower b := by
+  simp only [asciiLower, asciiUpper, isUpper, isLower]
+  by_cases h1 : (97 ≤ b ∧ b ≤ 122)
+  · have h2 : ¬ (65 ≤ b ∧ b ≤ 90) := by omega
+    have h3 : (65 ≤ b - 32 ∧ b - 32 ≤ 90) := by omega
+    simp [h1, h2, h3]; omega
+  · simp [h1]
+
 theorem inj_of_nodup_map {α β : Type} (f : α → β) (l : List α) (h : (l.map f).Nodup) :
     ∀ a ∈ l, ∀ b ∈ l, f a = f b → a = b := by
   induction l with
